@@ -104,3 +104,117 @@ func replayObligation(E *Engine, prop string, o *Obligation) *replayResult {
 	res.Text = sb.String()
 	return res
 }
+
+// replayCex: the solver's candidate counterexample of a failed postcondition, run on the real function. The
+// candidate is confirmed when the real function returns the results the encoding predicted for it - the
+// results under which the solver found the postcondition false.
+func replayCex(E *Engine, prop string, o *Obligation) *replayResult {
+	sg := o.Sig
+	if sg == nil || len(o.Cex) == 0 {
+		return nil
+	}
+	var args []string
+	for _, p := range sg.Params {
+		v, ok := o.Cex[p.Name]
+		if !ok {
+			switch p.Kind {
+			case "bool":
+				v = "false"
+			case "int":
+				v = "0"
+			default:
+				v = "hex:"
+			}
+		}
+		switch {
+		case p.Kind == "string" || p.Kind == "bytes":
+			if v == "nil" {
+				args = append(args, p.GoType+"(nil)")
+			} else {
+				args = append(args, fmt.Sprintf("%s(func() []byte { b, _ := hex.DecodeString(%q); if b == nil { b = []byte{} }; return b }())", p.GoType, strings.TrimPrefix(v, "hex:")))
+			}
+		case p.Bool:
+			args = append(args, p.GoType+"("+v+")")
+		default:
+			args = append(args, fmt.Sprintf("func() %s { var x %s; fmt.Sscan(%q, &x); return x }()", p.GoType, p.GoType, v))
+		}
+	}
+	var lhs, prints []string
+	for i, r := range sg.Rets {
+		n := fmt.Sprintf("r%d", i)
+		switch r.Kind {
+		case "int", "bool":
+			lhs = append(lhs, n)
+			prints = append(prints, "fmt.Sprint("+n+")")
+		case "error":
+			lhs = append(lhs, n)
+			prints = append(prints, "fmt.Sprint("+n+" == nil)")
+		default:
+			lhs = append(lhs, "_")
+			prints = append(prints, `""`)
+		}
+	}
+	call := sg.Func + "(" + strings.Join(args, ", ") + ")"
+	if len(lhs) > 0 {
+		call = strings.Join(lhs, ", ") + " := " + call
+	}
+	src := "package " + sg.Pkg + "\n\nimport (\n\t\"encoding/hex\"\n\t\"fmt\"\n\t\"strings\"\n\t\"testing\"\n)\n\nfunc TestZZCexReplay(t *testing.T) {\n\tdefer func() {\n\t\tif r := recover(); r != nil {\n\t\t\tfmt.Printf(\"CEX-PANIC %v\\n\", r)\n\t\t}\n\t}()\n\t_ = hex.DecodeString\n\t" + call + "\n\tfmt.Println(\"CEX-REAL \" + strings.Join([]string{" + strings.Join(prints, ", ") + "}, \"|\"))\n}\n"
+	dir := scratchDir
+	if dir == "" {
+		dir = filepath.Join(verifDir, "out", prop)
+	}
+	os.MkdirAll(dir, 0o755)
+	tf := filepath.Join(dir, "cex_replay_test.go")
+	os.WriteFile(tf, []byte(src), 0o644)
+	ov := map[string]map[string]string{"Replace": {filepath.Join(E.P.Repo, sg.Dir, "zz_cex_replay_test.go"): tf}}
+	ovb, _ := json.Marshal(ov)
+	ovf := filepath.Join(dir, "cex_overlay.json")
+	os.WriteFile(ovf, ovb, 0o644)
+	cmd := exec.Command("go", "test", "-v", "-tags", "verif", "-overlay", ovf, "-vet=off", "-count=1", "-timeout", "60s", "-run", "TestZZCexReplay", "./"+sg.Dir+"/")
+	cmd.Dir = E.P.Repo
+	cmd.Env = append(os.Environ(), "GOFLAGS=-mod=mod", "GOPROXY=off", "GOSUMDB=off", "GOTOOLCHAIN=local")
+	out, _ := cmd.CombinedOutput()
+	var want []string
+	for i, r := range sg.Rets {
+		w := ""
+		if i < len(o.CexRets) && (r.Kind == "int" || r.Kind == "bool" || r.Kind == "error") {
+			w = o.CexRets[i]
+		}
+		want = append(want, w)
+	}
+	res := &replayResult{}
+	var sb strings.Builder
+	var in []string
+	for _, p := range sg.Params {
+		in = append(in, p.Name+" = "+o.Cex[p.Name])
+	}
+	sb.WriteString("solver counterexample replayed on the real code: " + sg.Func + "(" + strings.Join(in, ", ") + ") in ./" + sg.Dir + "\n")
+	got := ""
+	for _, ln := range strings.Split(string(out), "\n") {
+		if strings.HasPrefix(ln, "CEX-REAL ") {
+			got = strings.TrimPrefix(ln, "CEX-REAL ")
+		}
+		if strings.HasPrefix(ln, "CEX-PANIC ") {
+			sb.WriteString("the real function panicked: " + strings.TrimPrefix(ln, "CEX-PANIC ") + "\n")
+			if o.Kind != "ensures" {
+				res.Confirmed = true
+			}
+		}
+	}
+	if got == "" && !res.Confirmed {
+		sb.WriteString("the replay did not produce a result:\n" + tail(string(out), 800) + "\n")
+		res.Text = sb.String()
+		return res
+	}
+	sb.WriteString("real results (integers, booleans; for an error: whether it is nil): " + got + "\n")
+	sb.WriteString("results under which the solver found the clause false:              " + strings.Join(want, "|") + "\n")
+	if got == strings.Join(want, "|") {
+		res.Confirmed = true
+		sb.WriteString("FAILING INPUT (confirmed on the real code): the real function returns exactly these results, and they falsify\n  " + o.Text + "\n")
+	} else {
+		sb.WriteString("the real function does not return the predicted results for this candidate: not confirmed by this replay\n")
+	}
+	sb.WriteString("replay test:\n" + src)
+	res.Text = sb.String()
+	return res
+}
